@@ -35,7 +35,8 @@ def swarm_cfg_tt(rnd, **over):
     if not (cfg['undo'] or cfg['stop']):
         cfg['undo'] = True
     cfg['W'] = rnd.choice((2, 2, 3, 4))
-    cfg['n_segments'] = rnd.randrange(1, 6)
+    from . import gen as _gen
+    cfg['n_segments'] = rnd.randrange(1, 6) if not (_gen.BIG and rnd.random() < 0.5) else rnd.randrange(4, 12)
     cfg['max_preempts'] = rnd.randrange(0, 7)
     cfg.update(over)
     return cfg
